@@ -552,12 +552,13 @@ impl<'a> Parser<'a> {
     }
 
     fn parse_primary(&mut self) -> Result<ExprAST<'a>> {
-        let lhs = self.parse_token()?;
-        if self.tokenizer.cur_token.is_postfix_op_token() {
+        let mut lhs = self.parse_token()?;
+        // every postfix operator that follows belongs to this operand: `-a++ --` is `-((a++)--)`
+        while self.tokenizer.cur_token.is_postfix_op_token() {
             let op = self.tokenizer.cur_token.string();
             self.next()?;
             self.node(self.height)?;
-            return Ok(ExprAST::Postfix(Box::new(lhs), op.to_string()));
+            lhs = ExprAST::Postfix(Box::new(lhs), op.to_string());
         }
         Ok(lhs)
     }
